@@ -301,9 +301,24 @@ def direct_oracle(cases):
     for ci, (csv, auto, ops, outs) in enumerate(cases):
         db = []
         cur_auto = auto
+        last_valid, expect_valid = None, False         # C06: "with automatic indexing on, inserting in non-decreasing time order keeps the index valid"
         for k, (o, x) in enumerate(zip(ops, outs)):
             if o[0] == "reopen" and x[0] != "raise":
                 cur_auto = bool(o[1])                  # a reopen chooses auto_index anew
+                last_valid = None
+            if o[0] == "index_valid" and x[0] == "bool":
+                if expect_valid and x[1] is False:
+                    bad.append((ci, k, ("bool", True)))
+                last_valid, expect_valid = x[1], False
+            elif o[0] == "insert" and x[0] == "nat" and db is not None and cur_auto and last_valid is True:
+                ts = [p["time"] for p in o[1] if p is not None and p.get("time") is not None]
+                newest = max((p["time"] for p in db), default=None)
+                expect_valid = len(ts) == len(o[1]) and all(a <= b for a, b in zip(ts, ts[1:])) and (newest is None or not ts or ts[0] >= newest) \
+                    and all(abs(t_) < (1 << 62) for t_ in ts)
+            elif o[0] in READ_OPS and x[0] != "raise" and cur_auto:
+                last_valid, expect_valid = True, False
+            elif _kind(o)[0] in WRITE_KINDS or o[0] == "handle":
+                last_valid, expect_valid = None, False
             if db is None:
                 if o[0] == "iter" and x[0] == "points":
                     db = [dict(p) for p in x[1]]
